@@ -698,7 +698,7 @@ class Injector(object):
         for i in range(ln, len(lines)):
             if lines[i].strip():
                 return i + 1
-        return ln
+        return len(lines) + 1      # end of file: the text ends with a newline, so EOF is met on the line after the last one
 
     def drop_semicolon(self):
         lines = self.f.lines()
